@@ -30,7 +30,7 @@ package proxyutil
 //@   at entry 0 before set lastWarnHeader = header
 // warn-text and warn-date are quoted-strings: the error text goes through %q, so a quote, backslash or line break in it
 // cannot end the quoted-string early or split the header line
-//@   at call 0 of Sprintf before assert[warn-text-and-date-are-escaped-quoted-strings; C03] arg0 == "199 \"martian\" %q %q"
+//@   at call 0 of Sprintf before assert[warn-text-and-date-are-escaped-quoted-strings; C03 C02] arg0 == "199 \"martian\" %q %q"
 
 //@ func GetRangeStart
 //@   serves C18
